@@ -60,7 +60,14 @@ def bad_stmt(ctx):
         new = ["  " + g]
     if p.get("cm"):
         # a trailing comment on every other line of the program
-        lines = [l + " ! note" for l in lines]
+        noted = []
+        for k, l in enumerate(lines):
+            w = l.strip().split(" ")
+            nxt = lines[k + 1].strip().split(" ") if k + 1 < len(lines) else [""]
+            shared = w[0] == "do" and nxt[0] == "do" and len(w) > 1 and len(nxt) > 1 and w[1] == nxt[1] and w[1][:1].isdigit()
+            # no comment between the DO statements of a shared-label nest (recorded finding of C11)
+            noted.append(l if shared else l + " ! note")
+        lines = noted
     lines = lines[:i] + new + lines[i + 1:]
     text = "\n".join(lines) + "\n"
     want_line = i + len(new)          # 1-based number of the last physical line of the garbage statement
